@@ -334,7 +334,7 @@ def _run(env):
             ctx.fail('embedded', 'embedded signature no longer verifies after the certificate was copied and re-exported', case)
         # flips inside the embedded signature's signed region
         if i < ctx.n(4, 40):
-            for pos in range(1, 4 + len(eh)):
+            for pos in range(0, 4 + len(eh)):          # 0 = the embedded signature's own version octet
                 for bit in ([rng.randrange(8)] if ctx.quick else range(8)):
                     eb2 = bytearray(ebody); eb2[pos] ^= 1 << bit
                     cert2 = prefix + subpkt + binding(bytes(eb2))
